@@ -78,7 +78,7 @@ def family(chk, d, tier, seed):
                  {"Pats": "{1, 2}", "Ovs": '{"arity", "types", "ret"}', "Stride": 61}]
         seed = 0
     else:
-        parts = [{"Pats": "{%d}" % p, "Ovs": '{"%s"}' % o, "Stride": 1 if o == "none" else 3}
+        parts = [{"Pats": "{%d}" % p, "Ovs": '{"%s"}' % o, "Stride": 1 if o == "none" else 4}
                  for p in (1, 2, 3) for o in ("none", "arity", "types", "ret")]
     recs = applications(chk, d, parts, seed)
     seen = set()
